@@ -123,6 +123,9 @@ inductive NAct
   | ctlRemoveByRange (lo hi : Nat)
   | ctlRemoveByTag (tag : Bytes)
   | ctlRemoveTargetById (lo hi : Nat) (v : Var) (e : Exc)
+  | ctlRemoveByMsg (msg : Bytes)
+  | ctlRemoveTargetByTag (tag : Bytes) (v : Var) (e : Exc)
+  | ctlRemoveTargetByMsg (msg : Bytes) (v : Var) (e : Exc)
   | ctlAuditEngine (m : AuditEngine)
   | ctlAuditLogParts (modification : Bytes)
   | nop                                  -- log, msg, tag, capture, … : no state effect modelled
@@ -160,6 +163,7 @@ structure Rule where
   tags : List Bytes
   log : Bool
   audit : Bool
+  msg : Bytes := []         -- `msg:` text as written ("" = the rule has no msg)
 deriving Repr, DecidableEq
 
 structure Intr where
@@ -479,6 +483,13 @@ def runNAct (rules : List Rule) (tx : Tx) : NAct → Tx
     { tx with rmIds := tx.rmIds ++ (rules.filter (fun r => r.tags.contains tag)).map (·.id) }
   | .ctlRemoveTargetById lo hi v e =>
     { tx with rmTargets := tx.rmTargets ++ ((rules.filter (fun r => lo ≤ r.id && r.id ≤ hi)).map fun r => (r.id, v, e)) }
+  | .ctlRemoveByMsg msg =>
+    -- ctl.go:296: rules that have a msg equal to the argument
+    { tx with rmIds := tx.rmIds ++ (rules.filter (fun r => !r.msg.isEmpty && r.msg == msg)).map (·.id) }
+  | .ctlRemoveTargetByTag tag v e =>
+    { tx with rmTargets := tx.rmTargets ++ ((rules.filter (fun r => r.tags.contains tag)).map fun r => (r.id, v, e)) }
+  | .ctlRemoveTargetByMsg msg v e =>
+    { tx with rmTargets := tx.rmTargets ++ ((rules.filter (fun r => !r.msg.isEmpty && r.msg == msg)).map fun r => (r.id, v, e)) }
   | .ctlAuditEngine m => { tx with auditEngine := m }
   | .ctlAuditLogParts md =>
     match applyParts tx.auditParts md with
@@ -733,6 +744,7 @@ deriving Repr, DecidableEq
 inductive Dir
   | removeById (sels : List IdSel)
   | removeByTag (tag : Bytes)
+  | removeByMsg (msg : Bytes)
   | updateTargetById (sels : List IdSel) (items : List TItem)
   | updateTargetByTag (tag : Bytes) (items : List TItem)
   | updateActionById (sels : List IdSel) (u : ActUpd)
@@ -819,6 +831,7 @@ def updateByIds (f : Rule → Rule) (rs : List Rule) (sels : List IdSel) : Optio
 def applyDir (rs : List Rule) : Dir → Option (List Rule)
   | .removeById sels => removeSels rs sels
   | .removeByTag tag => some (rs.filter fun r => !r.tags.contains tag)
+  | .removeByMsg msg => some (rs.filter fun r => !(!r.msg.isEmpty && r.msg == msg))   -- rulegroup.go:125 DeleteByMsg
   | .updateTargetById sels items => updateByIds (addTargets items) rs sels
   | .updateTargetByTag tag items => some (rs.map fun r => if r.tags.contains tag then addTargets items r else r)
   | .updateActionById sels u => updateByIds (applyActUpd u) rs sels
